@@ -974,6 +974,17 @@ def _pure(e: ast.AST) -> bool:
     return True
 
 
+def _may_raise(e: ast.AST) -> bool:
+    for n in ast.walk(e):
+        if isinstance(n, ast.Subscript) and isinstance(n.ctx, ast.Load):
+            return True
+        if isinstance(n, ast.BinOp) and isinstance(n.op, (ast.Div, ast.FloorDiv, ast.Mod)):
+            return True
+        if isinstance(n, ast.Call) and not (isinstance(n.func, ast.Name) and n.func.id in ("isinstance", "type", "id", "repr", "callable", "hasattr", "cast")):
+            return True
+    return False
+
+
 def _reads(e: ast.AST) -> tuple[set[str], set[str]]:
     names = {n.id for n in ast.walk(e) if isinstance(n, ast.Name) and isinstance(n.ctx, ast.Load)}
     attrs = {n.attr for n in ast.walk(e) if isinstance(n, ast.Attribute)}
@@ -1195,6 +1206,10 @@ class _Forward:
         names.discard(name)
         if _pure(e) or isinstance(e, ast.GeneratorExp) and len(loads) == 1 and _pure(ast.Tuple(elts=[g.iter for g in e.generators][:1], ctx=ast.Load())):
             if isinstance(e, ast.GeneratorExp) and len(loads) != 1:
+                return False
+            # an expression that can fail (an element read, a division, a call) is evaluated where it stands: moving it past a statement that can leave the
+            # function changes which error a bad input meets first (`n = len(x[0])` before `if len(x) != 2: raise ...`)
+            if _may_raise(e) and any(isinstance(x, (ast.Raise, ast.Return)) for st in later[:last] for x in ast.walk(st)):
                 return False
             for k, st in enumerate(later[: last + 1]):
                 direct_use = k == last and not isinstance(st, (ast.For, ast.While))
@@ -2050,6 +2065,31 @@ def _see_through_value_memos(mods: dict[str, Module], inv: dict, log: list[str])
                 return out
             kset = kvars(K)
             if not kset or not kset - module_level:
+                continue
+
+            def injective(k: ast.expr, depth: int = 0) -> bool:
+                # different inputs must give different keys: names, attributes, tuples and exact renderings only (hash(), round(), arithmetic can collide)
+                if depth > 6:
+                    return False
+                if isinstance(k, ast.Constant):
+                    return True
+                if isinstance(k, ast.Name):
+                    if k.id in env and len(env[k.id]) == 1 and k.id not in params:
+                        return injective(env[k.id][0], depth + 1)
+                    return True
+                if isinstance(k, ast.Attribute):
+                    return injective(k.value, depth + 1)
+                if isinstance(k, (ast.Tuple, ast.List)):
+                    return all(injective(x, depth + 1) for x in k.elts)
+                if isinstance(k, ast.Call) and not k.keywords:
+                    if isinstance(k.func, ast.Attribute) and k.func.attr in ("tobytes", "tolist") and not k.args:
+                        return injective(k.func.value, depth + 1)
+                    if ast.unparse(k.func) in ("tuple", "str", "repr", "bytes", "float", "np.ascontiguousarray", "np.asarray", "frozenset") and len(k.args) == 1:
+                        return injective(k.args[0], depth + 1)
+                if isinstance(k, ast.Call) and ast.unparse(k.func) in ("np.ascontiguousarray", "np.asarray") and len(k.args) == 1 and all(kw.arg == "dtype" for kw in k.keywords):
+                    return injective(k.args[0], depth + 1)
+                return False
+            if not injective(K):
                 continue
             free = {x.id for x in ast.walk(E) if isinstance(x, ast.Name) and isinstance(x.ctx, ast.Load)} - module_level - set(dir(builtins))
             if not free - {"self", "cls"} <= kset:
@@ -3009,7 +3049,7 @@ def _scalarise_records(mods: dict[str, Module], inv: dict, log: list[str]) -> No
             c = ctor(node.value)
             if c is not None and isinstance(node.ctx, ast.Load):
                 names = [f for f, _ in recs[c[0]]]
-                if node.attr in names and all(_pure(a) for a in c[1]):
+                if node.attr in names and all(_pure(a) and not _may_raise(a) for a in c[1]):
                     self.n += 1
                     return ast.copy_location(_clone(c[1][names.index(node.attr)]), node)
             return node
@@ -3018,7 +3058,7 @@ def _scalarise_records(mods: dict[str, Module], inv: dict, log: list[str]) -> No
             self.generic_visit(node)
             c = ctor(node.value)
             if c is not None and isinstance(node.ctx, ast.Load) and isinstance(node.slice, ast.Constant) and isinstance(node.slice.value, int) \
-                    and -len(c[1]) <= node.slice.value < len(c[1]) and all(_pure(a) for a in c[1]):
+                    and -len(c[1]) <= node.slice.value < len(c[1]) and all(_pure(a) and not _may_raise(a) for a in c[1]):
                 self.n += 1
                 return ast.copy_location(_clone(c[1][node.slice.value]), node)
             return node
@@ -3077,7 +3117,7 @@ def _scalarise_records(mods: dict[str, Module], inv: dict, log: list[str]) -> No
                         for n_ in ast.walk(st.value):
                             for ch in ast.iter_child_nodes(n_):
                                 parents[id(ch)] = n_
-                        cands = [n_ for n_ in ast.walk(st.value) if isinstance(n_, (ast.Attribute, ast.Subscript)) and ctor(n_.value) is not None and not all(_pure(a) for a in ctor(n_.value)[1])]
+                        cands = [n_ for n_ in ast.walk(st.value) if isinstance(n_, (ast.Attribute, ast.Subscript)) and ctor(n_.value) is not None and not all(_pure(a) and not _may_raise(a) for a in ctor(n_.value)[1])]
                         if len(cands) == 1:
                             sel = cands[0]
                             cur, guarded = sel, False
